@@ -208,6 +208,9 @@ const unixToInternalC = int64(62135596800)
 
 func init() {
 	extraNatives = append(extraNatives, func(e *Engine) {
+		if !optState1Time {
+			return
+		}
 		n := e.natives
 		const big = int64(1) << 61
 
